@@ -142,6 +142,14 @@ def _resets(args):
                     d[path[-1]].append(12345)               # in-place mutation of a list leaf
                 else:
                     d[path[-1]] = sysworld.new_value(rng, old)
+        # nested in-place edits that add or remove keys (valid pass-through keyword arguments, switched modes)
+        if rng.random() < 0.6:
+            dynamic.AMPYCLOUD_PRMS['LOWESS']['delta'] = 0.5
+        if rng.random() < 0.5:
+            dynamic.AMPYCLOUD_PRMS['SLICING_PRMS']['height_scale_kwargs'].pop('min_range', None)
+            dynamic.AMPYCLOUD_PRMS['SLICING_PRMS']['height_scale_kwargs']['scale'] = 1000
+        if rng.random() < 0.3:
+            dynamic.AMPYCLOUD_PRMS['LAYERING_PRMS']['gmm_kwargs']['extra_kw'] = 1
         edited = copy.deepcopy(dynamic.AMPYCLOUD_PRMS)
         arg = list(names)
         if len(arg) == 1 and rng.random() < 0.5:
